@@ -515,6 +515,14 @@ func (p *proxyConn) writeResponse(res *http.Response) error {
 		}
 	}
 
+	// A body delimited by the end of the upstream connection is passed on to an HTTP/1.1 client in
+	// the chunked coding: closing our side when the upstream dies in the middle of such a body
+	// would look like the end of it.
+	if res.ContentLength == -1 && len(res.TransferEncoding) == 0 && !tunnel && !isHeaderOnlySpec(res) &&
+		res.ProtoAtLeast(1, 1) && req.ProtoAtLeast(1, 1) {
+		res.TransferEncoding = []string{"chunked"}
+	}
+
 	// An HTTP/1.0 client does not know the chunked coding: a body whose length is not known
 	// in advance is delimited by closing the connection.
 	unchunked := false
